@@ -10,7 +10,7 @@ SeqsUpTo(S, n) == UNION {[1..k -> S] : k \in 1..n}
 Patterns(S, lens) == UNION {{[i \in 1..k |-> IF i = 1 THEN x ELSE y] : x \in S, y \in S}
                             \cup {[i \in 1..k |-> IF i % 2 = 1 THEN x ELSE y] : x \in S, y \in S} : k \in lens}
 AddrQuick == SeqsUpTo(D3, 2) \cup Patterns(D3, {3, 5, 9, 10})
-AddrThorough == SeqsUpTo(D4, 3) \cup Patterns(D5, 4..10)
+AddrThorough == SeqsUpTo(D4, 3) \cup Patterns(D3, 4..10)
 AddrSim == SeqsUpTo(D5, 4) \cup Patterns(D5, 5..10)
 
 E(nd, nusb, prrt, pyserial, serial) == [nd |-> nd, nusb |-> nusb, prrt |-> prrt, pyserial |-> pyserial, serial |-> serial]
